@@ -287,6 +287,10 @@ func expand(r *vk.Run, cfg Config, slot int, n node, mu *sync.Mutex, seen, obs m
 		return
 	}
 	ops := s.Ops()
+	if len(ops) == 0 {
+		s.Close()
+		return
+	}
 	for i, op := range ops {
 		if stop.Load() {
 			break
